@@ -167,7 +167,13 @@ def _bound_elsewhere(fn, w):
 
 
 def _uses_dynamic_scope(fn):
-    return any(isinstance(n, ast.Name) and n.id in ("locals", "vars", "eval", "exec") for n in ast.walk(fn))
+    """can code in fn see its local names by name?  `locals()` / `vars()`, or `eval` / `exec` without an explicit namespace (with one, the
+    evaluated text sees that namespace only)"""
+    explicit = set()
+    for n in ast.walk(fn):
+        if isinstance(n, ast.Call) and isinstance(n.func, ast.Name) and n.func.id in ("eval", "exec") and len(n.args) >= 2:
+            explicit.add(id(n.func))
+    return any(isinstance(n, ast.Name) and n.id in ("locals", "vars", "eval", "exec") and id(n) not in explicit for n in ast.walk(fn))
 
 
 def rename_locals_back(model, changed, LOCALS):
@@ -648,4 +654,45 @@ def rename_classes_back(model, CLASSES: dict) -> list:
         done.append((f"{mod}.{newn}", q))
     if done:
         model._reindex()
+    return done
+
+
+# ------------------------------------------------------------------ parameters under new names
+def rename_params_back(model, changed, SIGNATURES) -> list:
+    """A pinned function whose parameter list has the pinned length but other names at some positions: when the new name is never
+    used as a keyword in a call anywhere in the package (so callers are unaffected) and the pinned name occurs nowhere in the function,
+    the parameter gets its pinned name back (alpha-renaming of a parameter that is only passed positionally)."""
+    kw_used = set()
+    for mod in model.modules.values():
+        if mod.short.startswith("_typeguard"):
+            continue
+        for n in ast.walk(mod.tree):
+            if isinstance(n, ast.keyword) and n.arg:
+                kw_used.add(n.arg)
+    done = []
+    for q in sorted(changed):
+        f = model.functions.get(q)
+        ps = SIGNATURES.get(q)
+        if f is None or ps is None or not isinstance(f.node, (ast.FunctionDef, ast.AsyncFunctionDef)) or _uses_dynamic_scope(f.node):
+            continue
+        a = f.node.args
+        if a.vararg or a.kwarg:
+            continue
+        cur = [x for x in a.posonlyargs + a.args + a.kwonlyargs]
+        if len(cur) != len(ps):
+            continue
+        kwonly = {x.arg for x in a.kwonlyargs}
+        ids = _all_identifiers(f.node)
+        for arg_, old in zip(cur, ps):
+            new = arg_.arg
+            if new == old or new in kwonly or new in kw_used or old in ids:
+                continue
+            if _bound_elsewhere(f.node, new) or any(isinstance(n, ast.Name) and n.id == new and isinstance(n.ctx, (ast.Store, ast.Del)) for n in ast.walk(f.node)):
+                continue
+            arg_.arg = old
+            for n in ast.walk(f.node):
+                if isinstance(n, ast.Name) and n.id == new:
+                    n.id = old
+            ids.add(old)
+            done.append((q, new, old))
     return done
